@@ -1350,7 +1350,10 @@ def _do_map(pool, op, opi, o, mk_funcs, S, obs):
     meth = getattr(pool, kind)
     if op.get('bad_arg'):
         # an argument the validation rejects
-        kw[op['bad_arg']] = 'x'
+        if op['bad_arg'] == 'bar_option':
+            kw['progress_bar_options'] = {'no_such_tqdm_option': 1}      # checked also when no bar is asked for; not a TypeError / ValueError
+        else:
+            kw[op['bad_arg']] = 'x'
     if kind == 'map' and op.get('input') == 'nd' and 'concatenate_numpy_output' in op:
         kw['concatenate_numpy_output'] = op['concatenate_numpy_output']
     try:
@@ -1365,7 +1368,8 @@ def _do_map(pool, op, opi, o, mk_funcs, S, obs):
             got = []
             k = 0
             it = iter(gen)
-            while True:
+            # (consume == 0: the generator object is created and left alone — a lazy call that has not been started)
+            while consume == 'all' or consume > 0:
                 S.rec('ask')
                 try:
                     v = next(it)
